@@ -408,12 +408,17 @@ func (v *violCtx) sigops() {
 		}
 		cost += consensus.TxSigOpCost(t, coins, flags)
 	}
-	variant := mod(arg, 10)
+	variant := mod(arg, 12)
 	v.sub = []string{"at-limit", "legacy+4", "witness+1", "after-opreturn+4", "p2sh+4", "multisig+4", "coinbase-scriptsig+4", "coinbase-scriptsig-at-limit",
-		"p2sh-wrapped-witness+1", "p2sh-wrapped-witness-at-limit"}[variant]
-	wrapped := variant >= 8 // the witness script sits behind a P2SH output: its sig-ops count all the same
+		"p2sh-wrapped-witness+1", "p2sh-wrapped-witness-at-limit", "p2sh-multisig16+4", "witness-multisig16+4"}[variant]
+	wrapped := variant == 8 || variant == 9 // the witness script sits behind a P2SH output: its sig-ops count all the same
 	if variant == 8 {
 		variant = 2
+	}
+	// OP_16 OP_CHECKMULTISIG in a redeem / witness script counts 16 (accurate counting), the largest key count
+	multisig16 := 0
+	if variant >= 10 {
+		multisig16 = 1 + mod(arg/12, 3)
 	}
 	target := consensus.MaxBlockSigOpsCost
 	switch variant {
@@ -452,6 +457,15 @@ func (v *violCtx) sigops() {
 	if variant == 4 {
 		p2shPart = 4 * (1 + mod(arg/6, 12))
 	}
+	if variant == 10 {
+		p2shPart = 4 * 16 * multisig16
+	}
+	if variant == 11 {
+		if !c.segwit {
+			return
+		}
+		witnessPart = 16 * multisig16
+	}
 	legacy := (need - witnessPart - p2shPart) / 4
 	if legacy < 0 || (need-witnessPart-p2shPart)%4 != 0 {
 		return
@@ -463,6 +477,9 @@ func (v *violCtx) sigops() {
 	var wsh, p2sh []byte
 	if witnessPart > 0 {
 		wsh = s.B.WrapP2WSH(s.B.SigOps(witnessPart))
+		if variant == 11 {
+			wsh = s.B.WrapP2WSH(s.B.MultiSigOps(multisig16, 16))
+		}
 		if wrapped {
 			wsh = s.B.WrapP2SH(wsh)
 		}
@@ -471,6 +488,9 @@ func (v *violCtx) sigops() {
 	}
 	if p2shPart > 0 {
 		p2sh = s.B.WrapP2SH(s.B.SigOps(p2shPart / 4))
+		if variant == 10 {
+			p2sh = s.B.WrapP2SH(s.B.MultiSigOps(multisig16, 16))
+		}
 		tx.Out = append(tx.Out, wire.TxOut{Value: rest / 2, PkScript: p2sh})
 		rest -= rest / 2
 	}
